@@ -56,7 +56,7 @@ CLAIMED = {
         "technique": "deterministic simulation: seeded partitions of a control-line script into polling batches delivered to the real run loop through a channel-backed socket, reference interpreter + final-image oracle (E1); shuttle-scheduled real worker threads over an in-memory stream with seeded segmentation and EOF (E2)",
         "design_ref": "DESIGN.md 5 (C18)",
         "level_text": "seeded exploration of (script x batching x delivery iterations x pause state x host clock) through the real dispatch in Cpu::run, parse_u8, parse_ioport, Socket::pop_messages: a sequence cell must only ever show sent values in order and end at the last one, all pokes/pin levels/pause state must equal the reference interpreter at quiet points, stop must end run() within a bound, and the final memory image must be the initial image plus exactly the poked bytes.",
-        "level_note": "E1 replaces the TCP stream and the two worker threads by channel ends (hook H4); the E2 part (C18N) runs the real Socket::connect and both real worker threads under shuttle's seeded random scheduler over an in-memory stream with seeded chunking, short reads/writes, half-close and process exit: applied lines must be order- and prefix-consistent (all applied when a stop ends the run) and the received byte stream must split and unescape into exactly the emitted messages. Lines that are not UTF-8 on the wire are part of the script grammar. Four defects found by this check were repaired (fix: commits f920072, 7b7b750, b8f91ee, 6d140bc) and are replayed as regressions; no known finding is open",
+        "level_note": "E1 replaces the TCP stream and the two worker threads by channel ends (hook H4); the E2 part (C18N) runs the real Socket::connect and both real worker threads under shuttle's seeded random scheduler over an in-memory stream with seeded chunking, short reads/writes, half-close, bounded buffers (back-pressure), a peer that stops reading for simulated seconds, exit by guest error (main unwinding) and process exit at seeded moments: applied lines must be order- and prefix-consistent (all applied when a stop ends the run) and the received byte stream must split and unescape into exactly the emitted messages. Lines that are not UTF-8 on the wire are part of the script grammar. Four defects found by this check were repaired (fix: commits f920072, 7b7b750, b8f91ee, 6d140bc) and are replayed as regressions; no known finding is open",
     },
     "C13": {
         "engine": "des",
@@ -76,7 +76,7 @@ CLAIMED = {
         "engine": "des",
         "technique": "deterministic simulation with fault injection: seeded corruption of running guests (code, registers, stack/PC, bus-controller settings, vectors, argument blocks, control-line fuzz) and random instruction storms at region edges, under catch_unwind in two build profiles; panic site = violation",
         "design_ref": "DESIGN.md 5 (C15)",
-        "level_text": "seeded fault injection into the real Cpu::run in the release and the overflow-checked profile: every run must end as Ok, Err or the simulator's step cap; a panic (or a dying worker process) is a violation keyed by its source site, minimised and replayed. Sampling over instruction words x register files x settings x fault schedules, not enumeration.",
+        "level_text": "seeded fault injection into the real Cpu::run in the release and the overflow-checked profile: every run must end as Ok, Err or the simulator's step cap; a panic (or a dying worker process) is a violation keyed by its source site, minimised and replayed. Every fourth run index belongs to a sweep in which every first instruction word meets every adversarial register value by construction; otherwise sampling over instruction words x register files x settings x fault schedules, not enumeration.",
         "level_note": "checked profile = release + overflow-checks (debug-assertions stay off so that the opcode trace printing of debug builds does not flood the run); allocation failure is only covered through an address-space limit on the worker processes",
     },
 }
